@@ -215,7 +215,8 @@ pub fn render_bad(b: &Bad, n: usize) -> BadRender {
             _ => chunk_bad("5\r\nhello\r\n+3\r\nabc\r\n0\r\n\r\n", b"hello"),
         },
         Bad::ChunkEmptySize => chunk_bad("5\r\nhello\r\n\r\n\r\n", b"hello"),
-        Bad::ChunkSizeOverflow => chunk_bad("5\r\nhello\r\n10000000000000000\r\nabc\r\n0\r\n\r\n", b"hello"),
+        // 2^64 + 3: an implementation that lets the size wrap reads a well-formed 3-byte chunk
+        Bad::ChunkSizeOverflow => chunk_bad("5\r\nhello\r\n10000000000000003\r\nabc\r\n0\r\n\r\n", b"hello"),
         Bad::ChunkMissingCrlf => chunk_bad("5\r\nhelloXX\r\n0\r\n\r\n", b"hello"),
         Bad::ChunkBadTerminator => chunk_bad("5\r\nhello\r\n0\r\nX\r\n", b"hello"),
         Bad::ChunkCtlInExt => chunk_bad("5;a=\x01b\r\nhello\r\n0\r\n\r\n", b""),
